@@ -20,6 +20,7 @@ import VerylModel.Driver.FS
 import VerylModel.Driver.Crash
 import VerylModel.Driver.Wide
 import VerylModel.Driver.ExprRef
+import VerylModel.Driver.Aig
 
 def main (args : List String) : IO UInt32 := do
   match args with
@@ -48,4 +49,8 @@ def main (args : List String) : IO UInt32 := do
   | ["crash"] => VerylModel.Driver.Crash.run; return 0
   | ["wide"] => VerylModel.Driver.Wide.run; return 0
   | ["exprref"] => VerylModel.Driver.ExprRef.run; return 0
+  | ["npn"] => VerylModel.Driver.Aig.runNpn; return 0
+  | ["lib"] => VerylModel.Driver.Aig.runNpn; return 0
+  | ["aig"] => VerylModel.Driver.Aig.runAig; return 0
+  | ["rewrite"] => VerylModel.Driver.Aig.runRewrite; return 0
   | _ => IO.eprintln s!"vmodel: unknown domain {args}"; return 2
